@@ -5,6 +5,18 @@ ROOT = os.path.dirname(os.path.dirname(os.path.abspath(__file__)))
 props = [json.loads(l) for l in open(os.path.join(ROOT, "properties.jsonl"))]
 
 CHECKS = {
+ "C01": dict(
+   category="proof",
+   text="Coq: every continuous sampler (20 families, f32 and f64) is modelled as a decision tree over exact real expressions, one node per rounded float operation of the source; for the six single-draw inverse-CDF families the model is proved to consume exactly one word and the event equivalence Q(u) <= x <-> u <= F(x) (resp. 1-F(x) <= u) is proved for all parameters, which is the documented law; the interval evaluator used to run the models is proved sound (evalI_sound). Every model is tied to the code pathwise: on identical parameter bits and RNG words the crate's value must lie in the rounding-inflated enclosure of the model and consume the same number of words (no statistics). Rejection samplers (Gamma, Beta, ziggurat primitives via C06, ...) have their models tied the same way; their density identities are proved only where listed in DESIGN.md (partial).",
+   note="Trusted: Coq kernel, Coq-Interval's verified operations, stdlib real axioms; hand models tied by pathwise correspondence + regenerated fingerprints; libm within per-operation budgets; probability bridge B1-B4 not formalised.",
+   technique="Coq proof (event equivalences for inverse-CDF families, sound interval evaluation) + pathwise model/implementation correspondence",
+   design="DESIGN.md §6 C01"),
+ "C06": dict(
+   category="proof",
+   text="Coq: all 4x257 ziggurat table entries regenerated from the source on every run satisfy monotonicity, F_i = f(X_i) to 1e-14, equal layer areas to 1e-8 and the end-point equations (proof by reflection through the verified interval evaluator); the exponential base strip + tail equals the layer area; the bit-slicing of the RNG word gives independent uniform layer index and mantissa (exactly 16 preimages each); the accepted sub-density of one ziggurat pass equals f(x)/(N v) for exact tables (telescoping identity, one- and two-sided, tail layer); Marsaglia's normal tail and the exponential tail transforms are proved. The sampler model is tied pathwise incl. crafted words per layer/branch; compiled table bits are read through the hook and compared with the regenerated literals.",
+   note="Trusted: Coq kernel, Interval ops, stdlib real axioms; rs2coq table translation (cross-checked against compiled bits); normal base-strip integral checked numerically only; perturbation bound from 1e-8 table tolerance to the law not formalised.",
+   technique="Coq proof by reflection over regenerated tables + algebraic density identity + pathwise correspondence",
+   design="DESIGN.md §6 C06"),
  "C08": dict(
    category="proof",
    text="Coq theorems over unbounded Z for every integer weight vector: new() returns InvalidInput / InvalidWeight / InsufficientNonZero exactly on the documented conditions and otherwise Ok, never panicking (no intermediate leaves the weight type, the pairing loop terminates); for every constructed table: mass conservation odds_i + aliased mass = n*w_i, leftover columns have odds exactly sum (the u32::MAX sentinel is never dereferenced), weights() returns the input, exactly n*w_i of the n*sum (column,threshold) pairs select i, zero weights are never returned; Lemire range sampling stays in range. The model is tied to the code by comparing the Debug-printed aliases/no_alias_odds, weights() and samples on scripted words for exhaustive small-alphabet vectors and random vectors.",
